@@ -4,6 +4,7 @@ import (
 	"fmt"
 	"go/constant"
 	"go/token"
+	"go/types"
 	"net/url"
 	"regexp"
 	"strings"
@@ -510,7 +511,82 @@ func runC11(c *an.Ctx) {
 			})
 			c.Check("J4", "fork-index-bounds-checked@(*Node).getFork", in.Pos(), lo && hi, "the numeric fast path must be guarded by 0 <= i < len(forks)")
 		})
-		c.Floor("J4", "indexed access by parsed fork number", n, 1)
+		if n == 0 {
+			c.Pass("J4", "no-positional-fork-lookup@(*Node).getFork", getFork.Pos(), "forks are only found by name")
+		}
+		// J4 identity: the position of a fork in Node.forks is not its number (dynamically expanded
+		// forks are appended: fork0, fork2, fork1, fork3), so a fork found by position may only be
+		// returned after its own name was compared with the requested one.
+		an.Instrs(getFork, func(in ssa.Instruction) {
+			ret, ok := in.(*ssa.Return)
+			if !ok || len(ret.Results) == 0 {
+				return
+			}
+			ld, ok := an.Strip(an.RetVal(ret, 0)).(*ssa.UnOp)
+			if !ok {
+				return
+			}
+			ia, ok := ld.X.(*ssa.IndexAddr)
+			if !ok || !an.LoadsField(ia.X, forks) {
+				return
+			}
+			if _, fromAtoi := ia.Index.(*ssa.Extract); !fromAtoi {
+				return
+			}
+			var derives func(v ssa.Value, want func(ssa.Value) bool, d int) bool
+			derives = func(v ssa.Value, want func(ssa.Value) bool, d int) bool {
+				if v == nil || d > 8 {
+					return false
+				}
+				if want(v) {
+					return true
+				}
+				switch x := v.(type) {
+				case *ssa.UnOp:
+					return derives(x.X, want, d+1)
+				case *ssa.FieldAddr:
+					return derives(x.X, want, d+1)
+				case *ssa.Field:
+					return derives(x.X, want, d+1)
+				case *ssa.Slice:
+					return derives(x.X, want, d+1)
+				case *ssa.BinOp:
+					return derives(x.X, want, d+1) || derives(x.Y, want, d+1)
+				case *ssa.Call:
+					for _, a := range x.Call.Args {
+						if derives(a, want, d+1) {
+							return true
+						}
+					}
+				case *ssa.Convert:
+					return derives(x.X, want, d+1)
+				}
+				return false
+			}
+			isElem := func(v ssa.Value) bool {
+				if v == ssa.Value(ld) {
+					return true
+				}
+				if u, ok := v.(*ssa.UnOp); ok {
+					if ia2, ok := u.X.(*ssa.IndexAddr); ok && an.LoadsField(ia2.X, forks) && ia2.Index == ia.Index {
+						return true
+					}
+				}
+				return false
+			}
+			isReq := func(v ssa.Value) bool { return v == ssa.Value(getFork.Params[1]) }
+			named, _ := an.GuardedBy(ret, func(r an.Rel) bool {
+				if r.Op != token.EQL {
+					return false
+				}
+				if b, ok := r.X.Type().Underlying().(*types.Basic); !ok || b.Info()&types.IsString == 0 {
+					return false
+				}
+				return (derives(r.X, isElem, 0) && derives(r.Y, isReq, 0)) || (derives(r.Y, isElem, 0) && derives(r.X, isReq, 0))
+			})
+			c.Check("J4", "fork-found-by-position-is-checked-by-name@(*Node).getFork", ret.Pos(), named,
+				"a fork taken from Node.forks by its parsed number is returned without comparing its own name with the requested one; the slice is not in name order once forks have been expanded at run time, so a notification for fork1 is applied to whichever fork sits at position 1")
+		})
 		// string search compares the whole remainder with ==
 		okCmp := false
 		an.Instrs(getFork, func(in ssa.Instruction) {
